@@ -38,7 +38,10 @@ CHECKS = {
               "restore_bisim (after any successful event, dump+restore yields the very same instance except at the two hand-over states, hence identical "
               "behaviour on every later event), restore_consistent, pool_wellFormed. Tie: fsmdiff restores from the dump between every two events and, "
               "for every tree edge of the exhaustive exploration, compares continuing in memory with continuing after dump+restore on the real code; "
-              "JSON fidelity of the payload is exercised by that run (modelled, not verified)."),
+              "JSON fidelity of the payload is exercised by that run (modelled, not verified). Props/C19Store.lean, the node's round store: saved_is_listed, "
+              "others_untouched, load_after_save, saved_round_loads (a round saved in ANY state name loads again, as itself and not as a fresh idle round), "
+              "step_save_load; tie: every dump fsmdiff keeps goes through the real FSMService on a LevelDB state and is read back through GetFSMInstance "
+              "(with and without creation), GetFSMDump, GetFSMList and IsExist (monitor C19 store_roundtrip)."),
         ref='7 C19', note=FSM_NOTE),
 }
 
